@@ -200,6 +200,28 @@ H_SRC["H11_ser_schema_same_direction"] = H_SRC["H10_schema_same_direction"].repl
     "def body0(): return repr(deserialization_schema(Rec))", "def body0(): return repr(serialization_schema(Rec))"
 ).replace("def body1(): return repr(deserialization_schema(List[Rec], all_refs=True))", "def body1(): return repr(serialization_schema(List[Rec], all_refs=True))")
 
+# a union dispatched by the class of the data, fed for the first time, from both threads, with data carried by subclasses
+# of the JSON classes (the dispatch table of the shared compiled method must stay read-only at run time)
+H_SRC["H12_union_by_type_subclass_data"] = '''
+import collections
+class D1(dict): pass
+class D2(dict): pass
+class L1(list): pass
+U = Union[int, str, List[int], Dict[str, int]]
+@dataclass
+class Holder(metaclass=DetMeta):
+    u: Union[int, str, List[int], Dict[str, int]] = 0
+    us: List[Union[int, str, List[int], Dict[str, int]]] = field(default_factory=list)
+def run(d):
+    try: return repr(apischema.deserialize(Holder, d))
+    except ValidationError as e: return repr(e.errors)
+def body0(): return run({"u": D1(a=1), "us": [1, L1([2]), D2(b=2)]})
+def body1(): return run({"u": D2(b=2), "us": [collections.OrderedDict(c=3), "s", D1(a="bad")]})
+BODIES = [body0, body1]
+def followup():
+    return [body0(), body1(), run({"u": 1.5}), run({"u": collections.OrderedDict(c=None)}), repr(apischema.deserialize(U, D1(z=0)))]
+'''
+
 QUICK = ["H1_deser_selfrec", "H2_ser_selfrec", "H3_shared_member", "H4_mutual", "H7_plain_control", "H10_schema_same_direction"]
 ALL = list(H_SRC)
 
@@ -431,7 +453,7 @@ def run_config(plan, instr, wide, max_schedules=None, nworkers=None) -> infra.St
 def main(tier: str, t0: float) -> int:
     if tier == "quick":
         st = run_config([(h, 1) for h in QUICK], False, True)
-        everywhere_q = ["H1_deser_selfrec", "H2_ser_selfrec", "H9_validators_conv"]
+        everywhere_q = ["H1_deser_selfrec", "H2_ser_selfrec", "H9_validators_conv", "H12_union_by_type_subclass_data"]
         st.merge(run_config([(h, 1) for h in everywhere_q], False, "all"))
         plan_desc = {"wide line points, 1 preemption": QUICK, "line points in every apischema module, 1 preemption": everywhere_q}
     else:
@@ -440,7 +462,7 @@ def main(tier: str, t0: float) -> int:
         st.merge(run_config([(h, 2) for h in two], False, "tiny"))
         core4 = ["H1_deser_selfrec", "H2_ser_selfrec", "H3_shared_member", "H4_mutual"]
         st.merge(run_config([(h, 1) for h in core4], True, False))
-        everywhere = ["H1_deser_selfrec", "H2_ser_selfrec", "H9_validators_conv", "H10_schema_same_direction", "H11_ser_schema_same_direction"]
+        everywhere = ["H1_deser_selfrec", "H2_ser_selfrec", "H9_validators_conv", "H10_schema_same_direction", "H11_ser_schema_same_direction", "H12_union_by_type_subclass_data"]
         st.merge(run_config([(h, 1) for h in everywhere], False, "all"))
         plan_desc = {"wide line points, 1 preemption": ALL, "recursion/cache line points, 2 preemptions": two, "bytecode points on recursion core, 1 preemption": core4, "line points in every apischema module, 1 preemption": everywhere}
     st.counters["evaluations"] = st.counters.get("schedules", 0)
